@@ -86,6 +86,8 @@ Definition check (c : case) : list nat :=
     match c with
     | CHist names dec hist changed =>
         (if names_ok names then pwalk dec names (pinit names) hist ++ swalk [] hist else []) ++
+        (* a crash is a crash whatever the names (also a server that does not come back) *)
+        clause 5 (forallb (fun x => negb (is_crash (snd x))) hist) ++
         (* clause 7 holds for any names: a value handed to a service is the service's *)
         clause 7 (match changed with [] => true | _ => false end)
     | CConc names writes during after =>
